@@ -88,3 +88,46 @@ func H_C09_lines_conserve() {
 	}
 	vReach("end")
 }
+
+// H_C09_validate_columns_conserve: cleaning up detected columns keeps every fragment, whatever mix of narrow and wide columns.
+//
+//symgo:harness prop=C09 kernel=K1c-validate-columns real=1
+//symgo:desc 1..4 columns in left-to-right order, each holding one labelled fragment whose width is symbolic (so each column is narrower or wider than MinColumnWidth independently): after validateColumns every label occurs exactly once in the remaining columns
+func H_C09_validate_columns_conserve() {
+	n := vAnyIntIn(1, 4)
+	cols := make([]Column, n)
+	for i := range cols {
+		w := vAnyFloat()
+		vAssume(w >= 0 && w <= 300)
+		f := text.TextFragment{Text: string(rune('A' + i)), X: float64(100 * i), Y: 700, Width: w, Height: 10, FontSize: 10}
+		cols[i] = Column{Index: i, Fragments: []text.TextFragment{f}, BBox: fragmentsBBox([]text.TextFragment{f})}
+	}
+	out := NewColumnDetector().validateColumns(cols)
+	var all []text.TextFragment
+	for _, c := range out {
+		all = append(all, c.Fragments...)
+	}
+	for i := 0; i < n; i++ {
+		vAssert("fragment-kept-exactly-once", vCountLabel(all, string(rune('A'+i))) == 1)
+	}
+	vReach("end")
+}
+
+// H_C03_line_detection_order_independent: line detection gives the same lines whatever order Go's randomized map
+// iteration happens to produce.
+//
+//symgo:harness prop=C03 kernel=F3-map-order-lines maporder=all noreplay=1 real=1
+//symgo:desc 12 single-fragment rows 2 units apart with 10 pt glyphs (the compressed-coordinate case that drives the adaptive tolerance through a map of distinct baselines); Detect is run twice and every map iteration independently takes insertion order, its reverse or a stride permutation (maps with <= 4 keys: every order): both runs return the same number of lines with the same texts
+func H_C03_line_detection_order_independent() {
+	var frags []text.TextFragment
+	for i := 0; i < 12; i++ {
+		frags = append(frags, text.TextFragment{Text: "row" + string(rune('a'+i)), X: 72, Y: float64(700 - 2*i), Width: 60, Height: 10, FontSize: 10})
+	}
+	a := NewLineDetector().Detect(frags, 612, 792)
+	b := NewLineDetector().Detect(frags, 612, 792)
+	vAssert("same-line-count", len(a.Lines) == len(b.Lines))
+	for i := range a.Lines {
+		vAssert("same-line-text", a.Lines[i].Text == b.Lines[i].Text)
+	}
+	vReach("end")
+}
